@@ -33,7 +33,7 @@ def main():
                 ok = False
                 continue
             open(p, 'w').write(s.replace(m['old'], m['new']))
-            env = dict(os.environ, VERIF_REPO=d)
+            env = dict(os.environ, VERIF_REPO=d, VERIF_EVIDENCE_DIR='out/scratch_evidence')
             r = subprocess.run([os.path.join(ROOT, 'check'), prop] + sys.argv[3:], capture_output=True, text=True, env=env)
             viol = [l for l in r.stdout.splitlines() if l.startswith('VIOLATION')]
             summ = [l for l in r.stdout.splitlines() if l.startswith(prop)]
